@@ -193,6 +193,27 @@ func ParseCopySourceRange(size int64, acceptRange string) (int64, int64, error) 
 
 // ParseCopySource parses x-amz-copy-source header and returns source bucket,
 // source object, versionId, error respectively
+// HasDotSegment reports whether the slash separated name contains a "." or
+// ".." segment or a NUL byte. Such names can't be stored as they are: the
+// file system would resolve them to a different location
+func HasDotSegment(name string) bool {
+	if strings.ContainsRune(name, 0) {
+		return true
+	}
+	for _, seg := range strings.Split(name, "/") {
+		if seg == "." || seg == ".." {
+			return true
+		}
+	}
+	return false
+}
+
+// IsValidId reports whether the client supplied upload id or version id
+// can be used as a single file name
+func IsValidId(id string) bool {
+	return !strings.ContainsAny(id, "/\x00") && id != "." && id != ".."
+}
+
 func ParseCopySource(copySourceHeader string) (string, string, string, error) {
 	if copySourceHeader[0] == '/' {
 		copySourceHeader = copySourceHeader[1:]
@@ -209,6 +230,9 @@ func ParseCopySource(copySourceHeader string) (string, string, string, error) {
 
 	srcBucket, srcObject, ok := strings.Cut(copySource, "/")
 	if !ok {
+		return "", "", "", s3err.GetAPIError(s3err.ErrInvalidCopySource)
+	}
+	if HasDotSegment(copySource) || !IsValidId(versionId) {
 		return "", "", "", s3err.GetAPIError(s3err.ErrInvalidCopySource)
 	}
 
